@@ -252,6 +252,15 @@ func cmdCaps(args []string) error {
 				} else {
 					rec["outcome"] = fmt.Sprintf("wrong-binding:%v", v)
 				}
+				// the values slice belongs to the caller: it is the same after the run, and a second run with it binds the same values
+				for i := range vals {
+					if vals[i] != i*10 {
+						rec["outcome"] = fmt.Sprintf("values-slice-modified:%v", vals)
+					}
+				}
+				if v2, ok2 := code.Run(nil, vals...).Next(); !ok2 || fmt.Sprint(v2) != fmt.Sprint(v) {
+					rec["outcome"] = fmt.Sprintf("second-run-differs:%v then %v", v, v2)
+				}
 			}
 		case "gate":
 			opts := []gojq.CompilerOption{}
